@@ -570,6 +570,9 @@ func c13Interference(r *harness.Run, bound int, states, transitions, execs *int6
 
 func c13RacePass(r *harness.Run) {
 	bin := filepath.Join(harness.Root, "bin", "racepass")
+	if d := os.Getenv("VERIF_BIN"); d != "" {
+		bin = filepath.Join(d, "racepass")
+	}
 	if _, err := os.Stat(bin); err != nil {
 		harness.Fatal("bin/racepass missing (run.sh builds it for C13): %v", err)
 	}
